@@ -299,4 +299,31 @@ def asr (t : T) (m : List (String × String)) (len : Nat) (algo : Algo) : Option
   let per := (List.range len).map fun j => runChar 6 (asrTipVec m j) algo t
   some ⟨per.map (·.1) ++ [0], per.map fun r => r.2.map (stateNames asrAlphabet)⟩
 
+/- ## ASR on protein alignments (`a.Alphabet() != align.NUCLEOTIDS`) -/
+
+/-- `align.stdaminoacid`, then `-` and `*` (what `ParsimonyAsr` appends) -/
+def aaChars : List Char :=
+  ['A', 'R', 'N', 'D', 'C', 'Q', 'E', 'G', 'H', 'I', 'L', 'K', 'M', 'F', 'P', 'S', 'T', 'W', 'Y', 'V', '-', '*']
+
+def aaAlphabet : List String := aaChars.map String.singleton
+
+/-- the states the up-pass gives a tip of a protein alignment: `X` (`align.ALL_AMINO`) is expanded to
+    the 20 amino acids (`-` and `*` not included); any other character stands for itself when it is in
+    the alphabet and is ignored (warning "does not exist in the alphabet") otherwise -/
+def aaCodes (c : Char) : List Nat :=
+  if c == 'X' then List.range 20
+  else if aaChars.contains c then [aaChars.findIdx (· == c)] else []
+
+def aaTipVec (m : List (String × String)) (j : Nat) (n : String) : Vec :=
+  match lookup m n with
+  | some sq => let codes := aaCodes (sq.toList.getD j ' '); tab 22 fun i => if codes.contains i then 1 else 0
+  | none => vzero 22
+
+/-- `ParsimonyAsr(t, a, algo, false)` for a protein alignment -/
+def asrProt (t : T) (m : List (String × String)) (len : Nat) (algo : Algo) : Option AsrOut :=
+  if algo == .none then none else
+  if !((lookedUp t).all fun n => (lookup m n).isSome) then none else
+  let per := (List.range len).map fun j => runChar 22 (aaTipVec m j) algo t
+  some ⟨per.map (·.1) ++ [0], per.map fun r => r.2.map (stateNames aaAlphabet)⟩
+
 end Gotree.C12
